@@ -6,7 +6,7 @@ CONSTANTS
   BuiltinClashCrashes = FALSE
   LateBuiltinShadowed = FALSE
   AddRawKey = FALSE
-  HeaderBlanksKept = FALSE
-  AddMerged = TRUE
+  HeaderBlanksKept = TRUE
+  AddMerged = FALSE
 INVARIANT NoDuplicateSurvives
 INVARIANT Terminates
